@@ -30,6 +30,7 @@
 **                 every subset in every declaration order, and statically declared types, every lookup order
 **   mode=typecmp  (C09) cmp/eq/neq/lt/gt/le/ge/hash of type objects, prefix-related type names included
 **   mode=cast     cast(obj, T) for every ordered pair of exported types
+**   mode=matrix only=fail warm=1 pairs=1  (C12; pairs=1: back-to-back dispatches of a present and an empty member)
 **   mode=matrix only=fail warm=1   (C12) the cells whose class is absent / whose member is empty, cold and after
 **                 every other class of the type has been looked up
 **   mode=null     (C12) NULL as receiver of every public function with object parameters, and NULL in every further
@@ -760,6 +761,40 @@ static void mode_matrix(void) {
         }
       }
     }
+  }
+  if (vf_param_i("pairs", 0)) {
+    /* back-to-back dispatches on one (type, class) that the type implements only in part: a member it has, then one it
+       leaves empty - nothing else is called in between (one try block) - and the longer patterns around that */
+    uint64_t npairs = 0;
+    static const int meps[] = { EP_TMETH, EP_METH };
+    for (int ti = 0; ti < NTY; ti++) {
+      if (!in_shard(ti)) continue;
+      struct tut* t = &BT[ti];
+      for (int ci = 0; ci < NBC; ci++) {
+        var di = declared(t, ci, NULL);
+        if (!di) continue;
+        for (int p = 0; p < U[ci].nmem; p++) for (int q = 0; q < U[ci].nmem; q++) {
+          if (*(var*)((char*)di + U[ci].off[p]) == NULL || *(var*)((char*)di + U[ci].off[q]) != NULL) continue;
+          for (int e = 0; e < 2; e++) for (int pat = 0; pat < 6; pat++) {
+            int ep = meps[e], ep2 = meps[1 - e];
+            HN = 0;
+            switch (pat) {
+            case 0: push_op(ci, ep, p); push_op(ci, ep, q); break;                                  /* present ; empty */
+            case 1: push_op(ci, ep, q); push_op(ci, ep, p); push_op(ci, ep, q); break;                /* empty ; present ; empty */
+            case 2: push_op(ci, ep, p); push_op(ci, EP_METH_T, 0); push_op(ci, ep, q); break;         /* the same class on another type in between */
+            case 3: push_op(ci, ep, p); push_op(ci, ep, p); push_op(ci, ep, q); push_op(ci, ep, p); push_op(ci, ep, q); break;
+            case 4: push_op(ci, ep, p); push_op(ci, ep2, q); break;                                   /* through the other entry point */
+            default: push_op(ci, EP_TIMPLM, p); push_op(ci, ep, p); push_op(ci, EP_IMPLM, q); push_op(ci, ep, q); break;
+            }
+            vf_watchdog(60);
+            run_history(t);
+            npairs++; vf.evaluations++;
+            if (vf_want_sample()) vf_sample("%s", vf_cur);
+          }
+        }
+      }
+    }
+    vf_extra("partial_class_dispatch_sequences", "%" PRIu64, npairs);
   }
   vf_extra("matrix_cells", "%" PRIu64, cells);
   vf_extra("matrix_cells_class_present", "%" PRIu64, present_cells);
@@ -1936,6 +1971,43 @@ static void mode_api(void) {
       }
     }
     vf_extra("iterable_operations", "%" PRIu64, niter);
+  }
+  /* ---- real objects of types that implement a class in part: a member they have, then one they lack, inside ONE try
+          block with nothing in between (the second call must raise ClassError, not call through the empty member) ---- */
+  {
+    uint64_t npair = 0;
+    static const char* PN[] = { "String:mem;get", "String:mem;set", "String:get;mem;get", "Tuple:iter_init;iter_type", "Tuple:iter_last;iter_prev;iter_type",
+                                "Range:get;set", "Range:mem;rem", "Slice:get;set", "Slice:mem;rem", "Range:get;mem;set;get;rem" };
+    for (int pi = 0; pi < (int)(sizeof PN / sizeof PN[0]); pi++) {
+      vf_set_cur("apipair %s", PN[pi]);
+      if (vf.replay && strcmp(vf.replay, vf_cur) != 0) continue;
+      vf_watchdog(60);
+      var str = new_raw(String, $S("ab"));
+      var ta = new_raw(Int, $I(1)), tb = new_raw(Int, $I(2));
+      var tup = new_raw(Tuple, ta, tb);
+      var arr = new_raw(Array, Int, $I(10), $I(11), $I(12));
+      volatile int step = 0; int want = 0; var e = NULL; var e2 = NULL;
+      switch (pi) {
+      case 0: want = 1; e = VF_CATCH({ mem(str, $S("a")); step = 1; get(str, $I(0)); step = 2; }); break;
+      case 1: want = 1; e = VF_CATCH({ mem(str, $S("b")); step = 1; set(str, $I(0), $S("x")); step = 2; }); break;
+      case 2: want = 1; e2 = VF_CATCH(get(str, $I(0))); e = VF_CATCH({ mem(str, $S("a")); step = 1; get(str, $I(0)); step = 2; }); if (e2 != ClassError) e = e2 ? e2 : Terminal; break;
+      case 3: want = 1; e = VF_CATCH({ iter_init(tup); step = 1; iter_type(tup); step = 2; }); break;
+      case 4: want = 2; e = VF_CATCH({ var l = iter_last(tup); step = 1; iter_prev(tup, l); step = 2; iter_type(tup); step = 3; }); break;
+      case 5: want = 1; e = VF_CATCH({ var r = range($I(3)); get(r, $I(0)); step = 1; set(r, $I(0), $I(1)); step = 2; }); break;
+      case 6: want = 1; e = VF_CATCH({ var r = range($I(3)); mem(r, $I(1)); step = 1; rem(r, $I(1)); step = 2; }); break;
+      case 7: want = 1; e = VF_CATCH({ var sl = slice(arr, $I(1)); get(sl, $I(0)); step = 1; set(sl, $I(0), $I(5)); step = 2; }); break;
+      case 8: want = 1; e = VF_CATCH({ var sl = slice(arr, $I(1)); mem(sl, $I(10)); step = 1; rem(sl, $I(10)); step = 2; }); break;
+      default: want = 2; e = VF_CATCH({ var r = range($I(3)); get(r, $I(0)); step = 1; mem(r, $I(1)); step = 2; set(r, $I(0), $I(1)); step = 3; }); break;
+      }
+      npair++; vf.executions++; vf.transitions++; vf.evaluations++; vf.nontrivial++;
+      char l[200];
+      if (e != ClassError) { snprintf(l, sizeof l, "dispatch-api/pair/%s/%s", PN[pi], e ? "wrong-exception" : "no-exception"); vf_violation(l, NULL, "the member the type lacks was reached after %d calls and gave %s, ClassError expected", (int)step, e == Terminal ? "no ClassError the first time" : vf_exc_name(e)); }
+      else if (step != want) { snprintf(l, sizeof l, "dispatch-api/pair/%s/raised-at-the-wrong-call", PN[pi]); vf_violation(l, NULL, "ClassError after %d completed calls, expected after %d", (int)step, want); }
+      if (strcmp(c_str(str), "ab") != 0 || len(tup) != 2 || len(arr) != 3 || c_int(get(arr, $I(1))) != 11) { snprintf(l, sizeof l, "dispatch-api/pair/%s/object-changed", PN[pi]); vf_violation(l, NULL, "an object changed"); }
+      del_raw(str); del_raw(tup); del_raw(arr); del_raw(ta); del_raw(tb);
+      if (vf_want_sample()) vf_sample("%s", vf_cur);
+    }
+    vf_extra("api_partial_class_pairs", "%" PRIu64, npair);
   }
   vf_extra("api_calls", "%" PRIu64, ncalls);
   vf_extra("container_operations", "%" PRIu64, ncont);
